@@ -225,10 +225,31 @@ def lean_sources():
     return sorted(glob.glob(os.path.join(LEAN, "JsonC", "**", "*.lean"), recursive=True))
 
 
-def audit_sources():
-    """grep for sorry/admit/axiom/native_decide/... outside comments in every library file."""
+def import_closure(prop):
+    """the library files Props/<prop>.lean transitively imports (plus itself)"""
+    seen, todo = set(), ["JsonC.Props." + prop]
+    while todo:
+        m = todo.pop()
+        if m in seen or not m.startswith("JsonC"):
+            continue
+        seen.add(m)
+        p = os.path.join(LEAN, *m.split(".")) + ".lean"
+        try:
+            txt = strip_comments(open(p).read())
+        except OSError:
+            continue
+        todo += re.findall(r"^import\s+(\S+)", txt, re.M)
+    return sorted(os.path.join(LEAN, *m.split(".")) + ".lean" for m in seen)
+
+
+def audit_sources(prop=None):
+    """grep for sorry/admit/axiom/native_decide/... outside comments in every library file the
+    property's theorems depend on (all of lean/JsonC when no property is given)."""
     hits = []
-    for p in lean_sources():
+    files = import_closure(prop) if prop else lean_sources()
+    for p in files:
+        if not os.path.exists(p):
+            continue
         txt = strip_comments(open(p).read())
         for ln, line in enumerate(txt.split("\n"), 1):
             if FORBIDDEN.search(line):
